@@ -11,6 +11,7 @@ import (
 	"io"
 	"os"
 	"path/filepath"
+	"sort"
 	"strings"
 	"sync/atomic"
 	"syscall"
@@ -497,8 +498,36 @@ func TestVerif_C17Pipe(t *testing.T) {
 		}
 		req1 := rng.Range(2, nf/3)
 		req2 := req1 + 21 + rng.Range(0, 10)
+		// every fourth connection: the camera's telemetry is frozen (same non-zero frame counter,
+		// time-on and temperatures on every frame) while the pictures differ; frames are then
+		// identified by a border pixel
+		frozen := idx%4 == 3
+		wantC := expectContinuous(cfg, cam, frames)
+		if frozen {
+			k := 0
+			for _, f := range frames {
+				if f.Clear {
+					continue
+				}
+				f.Pix[0][0] = uint16(1000 + k)
+				f.Seq, f.TimeOnMS, f.StatusBits, f.FrameMean, f.FPATempCK, f.FPAFFCCK, f.LastFFCMS = 777, timeOnFor(777), 0, 3000, 30000, 30000, 0
+				k++
+			}
+		}
+		idsOf := func(d *decFile) []int {
+			if !frozen {
+				return d.seqs()
+			}
+			out := []int{}
+			for _, fr := range d.Frames {
+				if !fr.Background {
+					out = append(out, int(fr.Pix[0][0])-1000)
+				}
+			}
+			return out
+		}
 		c.Case(idx, func() interface{} {
-			return map[string]interface{}{"fps": cam.FPS, "max_secs": cfg.MaxSecs, "frames": nf, "throttle": cfg.Throttle, "window": cfg.WindowStart + "-" + cfg.WindowStop, "test_recording_requests_before_frames": []int{req1, req2}}
+			return map[string]interface{}{"fps": cam.FPS, "max_secs": cfg.MaxSecs, "frames": nf, "throttle": cfg.Throttle, "telemetry_frozen": frozen, "window": cfg.WindowStart + "-" + cfg.WindowStop, "test_recording_requests_before_frames": []int{req1, req2}}
 		}, func() {
 			r, err := prepareConn(scratch, cfg, cam)
 			if err != nil {
@@ -526,21 +555,29 @@ func TestVerif_C17Pipe(t *testing.T) {
 				return
 			}
 			cfiles := decodeDir(filepath.Join(r.OutDir, "constant-recordings"))
-			want := expectContinuous(cfg, cam, frames)
+			want := wantC
+			if frozen {
+				// decodeDir orders files by telemetry, which says nothing here: order by content
+				sort.Slice(cfiles, func(a, b int) bool {
+					x, y := idsOf(cfiles[a]), idsOf(cfiles[b])
+					return len(x) > 0 && len(y) > 0 && x[0] < y[0]
+				})
+				c.Count("runs_with_frozen_telemetry", 1)
+			}
 			if len(cfiles) != len(want) {
 				c.Violation("continuous-files", "main.go wiring", fmt.Sprintf("%d continuous files, expected %d (throttle=%v window=%s-%s)", len(cfiles), len(want), cfg.Throttle, cfg.WindowStart, cfg.WindowStop))
 				return
 			}
 			for i, d := range cfiles {
-				if d.Err != "" || !intsEqual(d.seqs(), want[i]) {
-					c.Violation("continuous-files", "main.go wiring", fmt.Sprintf("continuous file %d: %s %s, expected %s", i, d.Err, seqsString(d.seqs()), seqsString(want[i])))
+				if d.Err != "" || !intsEqual(idsOf(d), want[i]) {
+					c.Violation("continuous-files", "main.go wiring", fmt.Sprintf("continuous file %d: %s %s, expected %s (telemetry frozen: %v)", i, d.Err, seqsString(idsOf(d)), seqsString(want[i]), frozen))
 					return
 				}
 			}
 			// test recordings: 21 consecutive frames starting with the frame processed next
 			found := 0
 			for _, d := range decodeDir(r.OutDir) {
-				s := d.seqs()
+				s := idsOf(d)
 				if d.Err == "" && len(s) > 0 && (s[0] == req1 || s[0] == req2) && len(s) == 21 {
 					ok := true
 					for k := 1; k < len(s); k++ {
@@ -560,7 +597,7 @@ func TestVerif_C17Pipe(t *testing.T) {
 			if found != wantTest {
 				names := []string{}
 				for _, d := range decodeDir(r.OutDir) {
-					names = append(names, seqsString(d.seqs()))
+					names = append(names, seqsString(idsOf(d)))
 				}
 				c.Violation("test-recording", "main.go wiring", fmt.Sprintf("%d of %d requested test recordings found as 21 consecutive frames starting at frames %d / %d; files in the output directory: %v", found, wantTest, req1, req2, names))
 				return
